@@ -5,12 +5,12 @@ import random
 LEVEL = 'exploration'
 RULE = ('all 2^7 subsets of {--gc (1-3 values), -G flag(s), --coverage, '
         '--profile cProfile, --buffer, warnings= argument, -D with scripted '
-        'stdin} x 16 endings {a class run as a unit whose class fixture raises or skips as the last / first thing of the layer, a raising feature tear-down (stray empty '
+        'stdin} x 17 endings {a class run as a unit whose class fixture raises or skips as the last / first thing of the layer, a raising feature tear-down (stray empty '
         'profile file), normal, failing tests, exception from a layer '
         'testSetUp hook, exception from a layer testTearDown hook (also '
         'around a test skipped in body/setUp, interrupted, or with several '
         'result events), KeyboardInterrupt in a test body / setUp / '
-        'tearDown, -x} = 2048 '
+        'tearDown, -x, --list-tests} = 2176 '
         'cases, exhaustive in both tiers (thorough repeats them with 3 more '
         'parameter seeds). A snapshot of gc thresholds/debug flags, '
         'traceback.format_exception/print_exception, sys.gettrace, '
@@ -48,7 +48,10 @@ ENDINGS = ['normal', 'failing', 'testSetUp_raises', 'testTearDown_raises',
            # the last (first) thing that happens in the layer is a class or
            # module level fixture error / skip of a class that is run as a
            # unit: a result event outside startTest / stopTest
-           'unit_last', 'unit_first']
+           'unit_last', 'unit_first',
+           # the run only lists the tests (--list-tests): features are set
+           # up and torn down around an empty test phase
+           'list_tests']
 
 
 def EXHAUSTIVE(tier):
@@ -262,6 +265,8 @@ def run_case(case):
     if 'warnings' in subset:
         warn = rng.choice(['error', 'ignore', 'always', 'default'])
         effects['warnings'] = warn
+    if ending == 'list_tests':
+        argv += ['--list-tests']
     stdin = None
     if 'pm' in subset:
         argv += ['-D']
@@ -385,6 +390,8 @@ def run_case(case):
         del gc.garbage[gc_garbage_before:]
         vworld.destroy(scratch)
     C('snapshots_compared')
+    if ending == 'list_tests':
+        C('list_only_runs')
     common.judge_nested(w.events, V, C)
     if pre_tb:
         C('application_traceback_functions')
